@@ -204,6 +204,7 @@ def mo_worker(chunk, seed, tier):
             "irrepsa": eq(u.irrepsa, mo.irreps), "irrepsb": eq(u.irrepsb, mo.irreps),
             "nelec": (u.nelec is None and mo.nelec is None) or abs(u.nelec - mo.nelec) < 1e-12,
             "spinpol": (u.spinpol is None and ea is None) or abs(u.spinpol - abs(ea.sum() - eb.sum())) < 1e-12,
+            "spinpol-as-source": (u.spinpol is None and mo.spinpol is None) or (u.spinpol is not None and mo.spinpol is not None and abs(u.spinpol - mo.spinpol) < 1e-12),
             "idempotent": u2 is u,
         }
         if ea is not None and mo.coeffs is not None:
